@@ -130,6 +130,13 @@ type FuncInfo struct {
 	Kind  FuncKind
 	Spec  *Spec
 	Model *ast.FuncDecl // for KModel
+	// Aspect: "" for the function's main contract. A contract directive `<FuncKey>@<aspect>` declares a second,
+	// independent contract of the same function (own ghost code and loop invariants, tagged the same way): the
+	// function is verified once per aspect, and a call made while aspect A is verified uses the callee's aspect-A
+	// contract when it has one. Two valid specifications of the same code; keeps unrelated invariants out of each
+	// other's verification conditions.
+	Aspect  string
+	Aspects map[string]*FuncInfo
 	// Opaque: spec functions kept uninterpreted while THIS function is verified (//kvc:opaque <FuncKey> <spec>...):
 	// an application becomes an uninterpreted function of its arguments and of the heap arrays the spec function
 	// reads, so facts about it are carried by congruence instead of being re-derived through its definition.
@@ -170,6 +177,8 @@ type Program struct {
 	Axioms     map[string][]*ast.FuncDecl // package path -> axiom functions
 	TypeInvs   []*TypeInv                 // //kvc:typeinv declarations
 	Finals     []*FinalField              // //kvc:final declarations
+	// AspectFuncs: the per-aspect clones of functions that have more than one contract
+	AspectFuncs []*FuncInfo
 }
 
 func isContractFile(name string) bool {
@@ -475,6 +484,33 @@ func funcResults(pk *packages.Package, fd *ast.FuncDecl) []*types.Var {
 func (p *Program) resolveFunc(pk *packages.Package, key string) *FuncInfo {
 	if fi, ok := p.ByKey[pk.PkgPath+"::"+key]; ok {
 		return fi
+	}
+	if i := strings.LastIndex(key, "@"); i > 0 && !strings.Contains(key[i:], ")") {
+		base := p.resolveFunc(pk, key[:i])
+		if base == nil {
+			return nil
+		}
+		asp := key[i+1:]
+		if base.Aspects == nil {
+			base.Aspects = map[string]*FuncInfo{}
+		}
+		c, ok := base.Aspects[asp]
+		if !ok {
+			cp := *base
+			c = &cp
+			c.Key = base.Key + "@" + asp
+			c.Aspect = asp
+			c.Aspects = nil
+			c.Spec = nil
+			c.Loops = nil
+			c.Ghost = nil
+			c.Opaque = nil
+			c.Kind = KNone
+			base.Aspects[asp] = c
+			p.AspectFuncs = append(p.AspectFuncs, c)
+		}
+		p.ByKey[pk.PkgPath+"::"+key] = c
+		return c
 	}
 	recv, name := "", key
 	if strings.Contains(key, "/") && !strings.HasPrefix(key, "(") {
